@@ -6,6 +6,7 @@ pub fn register(v: &mut Vec<(&'static str, crate::Harness)>) {
     v.push(("h_probe_tree", h_probe_tree));
     v.push(("h_probe_parse", h_probe_parse));
     v.push(("h_probe_tostring", h_probe_tostring));
+    v.push(("h_probe_html", h_probe_html));
 }
 
 pub fn h_probe_tree() {
@@ -48,4 +49,16 @@ pub fn h_probe_parse() {
         }
         Err(_) => sym::cover("rejected"),
     }
+}
+
+pub fn h_probe_html() {
+    let mut xot = Xot::new();
+    let name = xot.add_name("Br");
+    let el = xot.new_element(name);
+    let t = sym::any_string("t", 1);
+    let txt = xot.new_text(&t);
+    xot.append(el, txt).unwrap();
+    let s = xot.html5().to_string(el).unwrap();
+    sym::emit_str("out", &s);
+    sym::check("starts", s.starts_with("<!DOCTYPE html>"));
 }
